@@ -127,6 +127,18 @@ fn body() {
         (j.w.clone(), Arc::clone(&j.data), j.mode)
     });
     let mut src = SimSource::with_data(&w, (*data).clone());
+    let mut mode = mode;
+    if let (Mode::Par, Some(pre)) = (mode, w.pre.as_deref()) {
+        // (C10, multi-thread slice) an earlier call on the same simulated main thread; its result is discarded
+        let mut psrc = SimSource::new(&pre.w);
+        let pcfg = pre.w.cfg.build(pre.par, pre.w.workers, pre.w.block);
+        if let Ok(st) = flacenc::encode_with_fixed_block_size(&pcfg, &mut psrc, pre.w.block) {
+            let _ = stream_bytes(&st);
+        }
+        if pre.last_single {
+            mode = Mode::Single;
+        }
+    }
     let res = match mode {
         Mode::Single => {
             let cfg = w.cfg.build(false, w.workers, w.block);
